@@ -22,7 +22,7 @@ from harness.props import c07
 MODEL_PROPS = ["C03"]
 LEVEL = "proof"
 NONE = -999999
-TMP = os.path.join(lib.BUILD, "tmp", "c03")
+TMP = os.path.join(lib.BUILD, "tmp", "c03", str(os.getpid()))
 
 COMPRESSORS = ["blosc", "zstd", "lz4", "bz2"]
 
@@ -465,8 +465,14 @@ def spec_metadata(case, im):
             if sync and "filesize" not in ci:
                 return "filesize of chunk %d missing after a synchronous write" % k
         else:
-            if "filename" in ci or any(x in ci for x in ("first_time", "last_time")):
-                return "empty chunk %d carries a file name or row times" % k
+            if any(x in ci for x in ("first_time", "last_time")):
+                return "empty chunk %d carries row times" % k
+            if "filename" in ci:
+                # the code writes no file for an empty chunk; a file with zero rows would still be consistent
+                a = im.files.get(k)
+                if a is None or len(a):
+                    return "empty chunk %d names a file that is missing or not empty" % k
+                expect_files.add(k)
     if set(im.files) != expect_files:
         return "chunk files on disk %s differ from the files named in the metadata %s" % (sorted(im.files), sorted(expect_files))
     if im.notes or im.metas:
@@ -729,6 +735,8 @@ def run_batch(ctx, unit, cases, nontrivial_fn, dist_fn, procs):
     if cases:
         k = len(cases) // 3
         ctx.sample({"unit": unit, "case": show_case(cases[k]), "model": mout[k][:600]})
+    small = [(c, mo) for c, mo in zip(cases, mout) if sum(len(x["rows"]) for x in c["stream"]) <= 8]
+    PAIRS.extend(ctx.rng.sample(small, min(len(small), 40)))
     return mout
 
 
@@ -741,7 +749,7 @@ def cfg_key(case, r):
 
 def unit_roundtrip(ctx, pool):
     cases = []
-    n = 8000 if ctx.thorough else (1500 if ctx.escalated() else 500)
+    n = 8000 if ctx.thorough else (1500 if ctx.escalated() else 400)
     # systematic sweep: every compressor x dtype x rechunk x executor on small streams
     for comp in range(4):
         for v in range(4):
@@ -759,14 +767,14 @@ def unit_roundtrip(ctx, pool):
 
 def unit_malformed(ctx, pool):
     cases = []
-    for _ in range(2000 if ctx.thorough else 200):
+    for _ in range(2000 if ctx.thorough else 160):
         st = gen_stream(ctx.rng, small=ctx.rng.random() < 0.5)
         st, kind = malform(ctx.rng, st)
         case = base_case(ctx.rng, st, ai=ctx.rng.choice([0, 0, 1]), driver="save_from")
         case["kind"] = kind
         cases.append(case)
     # metadata handed to the saver that disagrees with the chunks, and allow_incomplete on good data
-    for _ in range(400 if ctx.thorough else 50):
+    for _ in range(400 if ctx.thorough else 40):
         st = gen_stream(ctx.rng, small=True)
         case = base_case(ctx.rng, st, ai=ctx.rng.randint(0, 1))
         if ctx.rng.random() < 0.5:
@@ -778,7 +786,7 @@ def unit_malformed(ctx, pool):
 
 def unit_tamper(ctx, pool):
     cases = []
-    for _ in range(4000 if ctx.thorough else 350):
+    for _ in range(4000 if ctx.thorough else 300):
         st = gen_stream(ctx.rng, small=ctx.rng.random() < 0.5)
         case = base_case(ctx.rng, st, ai=ctx.rng.choice([0, 0, 0, 1]), driver="save_from")
         t = gen_tamper(ctx.rng, len(st))
@@ -794,7 +802,7 @@ def unit_tamper(ctx, pool):
 
 def unit_forked(ctx, pool):
     cases = []
-    n = 600 if ctx.thorough else 60
+    n = 600 if ctx.thorough else 50
     for i in range(n):
         st = gen_stream(ctx.rng, small=True)
         order = list(range(len(st)))
@@ -806,9 +814,76 @@ def unit_forked(ctx, pool):
               lambda c, r: "children=%d%s save=%s load=%s" % (len(c["order"]), " fork" if c.get("realfork") else "", r["save"], r["load"]), pool)
 
 
-def crosscheck(ctx, cases, mout):
-    pass
+def coq_opt(x):
+    return "None" if x is None else "(Some (%d))" % x
 
+
+def coq_rows(rows):
+    return "[" + "; ".join("mkrow (%d) (%d) (%d) (%d)" % tuple(r) for r in rows) + "]"
+
+
+def coq_chunk(c):
+    return "(mkchunk (%d) (%d) %s (%d) (%d) %s (%d))" % (c["s"], c["e"], coq_rows(c["rows"]), c["dt"], c["kind"],
+                                                        coq_opt(c["run"]), c["tgt"])
+
+
+def coq_bool(b):
+    return "true" if b else "false"
+
+
+def coq_run(case):
+    v = case["v"]
+    md = case.get("md", {})
+    top, ta, tb, trows = case["tamper"]
+    t = {0: "T_none", 1: "(T_set_n %d%%nat (%d))" % (ta, tb), 2: "(T_del_file (%d))" % ta,
+         3: "(T_put_file (%d) None)" % ta, 4: "(T_put_file (%d) (Some ((%d), %s)))" % (ta, tb, coq_rows(trows)),
+         5: "(T_swap_files (%d) (%d))" % (ta, tb), 6: "(T_md_drop (%d))" % ta, 7: "(T_ci_drop %d%%nat (%d))" % (ta, tb),
+         8: "T_no_chunks", 9: "T_unend", 10: "T_exc", 11: "(T_compressor (%d))" % ta}[top]
+    return ("c03_digest (c03_run (mk_cfg %s %s %s %s (%d)) (mk_md (Some (%d)) (Some (%d)) (Some (%d)) (Some (%d)) (Some (%d)) %s "
+            "[] None None false false) [%s] [%s] %s %s (%d))" % (
+                coq_bool(case["rechunk"]), coq_bool(case["allow"]), coq_bool(case["sexec"]), coq_bool(case["forked"]),
+                DTYPES[v].itemsize, md.get("run", 7), md.get("dt", 1), md.get("kind", 1), v + 1, case["comp"],
+                coq_opt(case["mdtgt"]), "; ".join(coq_chunk(c) for c in case["stream"]),
+                "; ".join("%d%%nat" % k for k in case["order"]), t, coq_bool(case["ai"]), default_target(v)))
+
+
+def digest_of_line(mo):
+    """the c03_digest value (as a Coq term) that corresponds to a canonical model output line"""
+    import re
+    sv = re.search(r"save=(ok|err(\d+))", mo)
+    save = 0 if sv.group(1) == "ok" else int(sv.group(2))
+    ld = mo[mo.index(" load=") + 6:]
+    if ld.startswith("err"):
+        load, loaded = int(ld[3:]), []
+    else:
+        load = 0
+        loaded = [(int(m.group(1)), int(m.group(2)), int(m.group(3)))
+                  for m in re.finditer(r"\[(-?\d+) (-?\d+) run=\S+ dt=\S+ kind=\S+ tgt=\S+ n=(\d+) ids=[^\]]*\]", ld)]
+    cis = mo[mo.index(" chunks[") + 8:mo.index("] files[")]
+    infos = []
+    for ent in [x for x in cis.split(";") if x]:
+        f = ent.split(":")
+        infos.append((int(f[0]), int(f[1]), -1 if f[10] == "-" else int(f[10])))
+
+    def trip(l):
+        return "[" + "; ".join("((%d), (%d), (%d))" % t for t in l) + "]"
+    return "((%d), (%d), %s, %s)" % (save, load, trip(loaded), trip(infos))
+
+
+def crosscheck(ctx, pairs):
+    """re-evaluate a sample of the cases inside Coq (vm_compute) and compare with the extracted model"""
+    if not pairs:
+        return
+    pairs = ctx.rng.sample(pairs, min(len(pairs), 90 if ctx.thorough else 36))
+    eqs = ["%s = %s" % (coq_run(c), digest_of_line(mo)) for c, mo in pairs]
+    n, fails = lib.coq_crosscheck("C03", "From SV Require Import Model.SaverLoader Model.C03Run.", eqs, shard=12)
+    ctx.coverage.setdefault("kernel_crosscheck", {})["c03_run"] = {"equations": n, "failed_files": len(fails)}
+    if fails:
+        ctx.violation("crosscheck", "extracted model and Coq vm_compute disagree: " + fails[0][-400:],
+                      {"input": "corr:C03/extraction-crosscheck", "log": fails[0]}, no_failing_input=True)
+
+
+PAIRS = []
 
 UNITS = {"roundtrip": unit_roundtrip, "malformed": unit_malformed, "tamper": unit_tamper, "forked": unit_forked}
 
@@ -835,7 +910,7 @@ def run(ctx):
     # compile the numba kernels (split_array, diff, endtime) for the four dtypes once, before forking
     t0 = lib.now()
     for v in range(4):
-        work(base_case(ctx.rng.__class__(v), [c07.achunk(0, 3000, [(0, 1, 0, 0), (2000, 2001, 1, 0)], tgt=1)],
+        work(base_case(ctx.rng.__class__(v), [c07.achunk(0, 6000, [(0, 1, 0, 0), (2, 3, 1, 0), (5000, 5001, 2, 0), (5002, 5003, 3, 0)], tgt=1)],
                        v=v, rechunk=1, allow=1, sexec=0, lexec=0, driver="save_from", comp=v))
     print("C03 warm-up: %.1fs" % (lib.now() - t0), file=sys.stderr)
     _pool[0] = None     # worker processes create their own thread pool
@@ -846,6 +921,9 @@ def run(ctx):
             t0 = lib.now()
             fn(ctx, procs)
             print("C03 %s: %.1fs" % (name, lib.now() - t0), file=sys.stderr)
+        t0 = lib.now()
+        crosscheck(ctx, PAIRS)
+        print("C03 kernel cross-check: %.1fs" % (lib.now() - t0), file=sys.stderr)
     finally:
         procs.terminate()
         procs.join()
